@@ -315,6 +315,10 @@ pub fn run(rep: &mut Report) {
             let mut rev = spec.clone();
             rev.edges.reverse();
             on_spec(st, &rev, 1);
+            // and with an id gap (two vertices created and removed first: freed slots are re-used by the simplifiers)
+            let mut gapped = spec.clone();
+            gapped.gap = 2;
+            on_spec(st, &gapped, 1);
             watch_end();
         });
         rep.absorb("targeted", "local-complementation stars, pivot double stars, gadget pairs (supports with and without outputs, leaf wired first or last), gadget groups, interacting gadget groups; each also with its edges inserted in the opposite order", true, None, t0, stats);
